@@ -3,6 +3,7 @@
 EXTENDS Venue
 NoTuples == {}
 NoBanks == {}
+SBankSet == {"SB1", "SB2", "SB3"}
 DBankSet == {"DB1", "DB2", "DB3"}
 \* cumulative deposit interest values: 11.0, 10.000000007, 30.0 (precision 10^10)
 DCumSet == {<<1, 0, 11>>, <<1, 7, 10>>, <<1, 0, 30>>}
